@@ -16,6 +16,7 @@ def run(R):
     names = common.names_for(R, 'C01') + LEAVES + [n for n in R.reg.REG if n.startswith('ace_time::extended::Zone') and n.endswith('() const') and 'Broker::' in n]
     names = list(dict.fromkeys(names))
     obs = check.verify_functions(R, names)
+    obs += common.avr_pass(R, names)
     check.discharge(R, obs, timeout=120)
     # bounded stand-in: the real extended processor against zic at every probed instant of 2000..2049
     orc = zc.oracles(R)
